@@ -322,14 +322,22 @@ theorem iri_step_sim {P : Preset} (hv : P.valid = true) (po : ParserOptions) {te
   -- simulate on the encoder with pin tracking switched on, then forget the pins
   obtain ⟨te'', rows, p, n, R', heq', sim, res⟩ :=
     iriIndices_sim (TFits.nsSingle hv iri) (wft.tinv _) iri (by simp) (by simp)
-  have heq : te.iriIndices iri = (te''.unpin, .ok (rows, p, n)) := by
-    have := TermEnc.iriIndices_unpin_ok heq'
-    have hsr : te.startRow.unpin = te := hraw
-    rwa [hsr] at this
-  generalize hte' : te''.unpin = te' at heq
+  have heq : te.iriIndices iri = ({ te''.unpin with rowOpen := te.rowOpen }, .ok (rows, p, n)) := by
+    have h1 := TermEnc.iriIndices_unpin_ok heq'
+    have hsr : ({ te.startRow.unpin with rowOpen := te.rowOpen } : TermEnc) = te := by
+      have : ({ te.startRow.unpin with rowOpen := te.rowOpen } : TermEnc) = te.unpin := rfl
+      rw [this, hraw]
+    have h2 := TermEnc.iriIndices_rowOpen te.startRow.unpin te.rowOpen iri
+    rw [h1, hsr] at h2
+    exact h2
+  generalize hte' : ({ te''.unpin with rowOpen := te.rowOpen } : TermEnc) = te' at heq
   obtain ⟨ssE, mE', fE, runE⟩ := sim.ing ss em.startRow hopt
-  have mE : EM te' ssE := hte' ▸ mE'.unpin
-  have wft' : WFT P te' := hte' ▸ sim.inv.wft.unpin
+  have mE : EM te' ssE :=
+    hte' ▸ (⟨mE'.unpin.n, mE'.unpin.p, mE'.unpin.d⟩ : EM { te''.unpin with rowOpen := te.rowOpen } ssE)
+  have wft' : WFT P te' :=
+    hte' ▸ (⟨sim.inv.wft.unpin.wfn, sim.inv.wft.unpin.wfp, sim.inv.wft.unpin.wfd, sim.inv.wft.unpin.maxn,
+      sim.inv.wft.unpin.maxp, sim.inv.wft.unpin.maxd, sim.inv.wft.unpin.p0⟩ :
+        WFT P { te''.unpin with rowOpen := te.rowOpen })
   have hraw' : te'.unpin = te' := by rw [← hte']; rfl
   have hlr' : setLR ssE te'' = setLR ssE te' := by rw [← hte']; rfl
   have hself : setLR ssE te.startRow = ssE :=
